@@ -441,6 +441,114 @@ void run_program(const ProgId &id, const std::string &only_dom) {
 }
 
 
+// ---- C06 (real-domain clause): no extrapolation within widening_delay ---------------------
+// Reference = the same engine with an unreachable delay (join only, no narrowing); T = number of
+// cycle iterations it needed. With widening_delay >= T no widening may happen, so the results must
+// be identical; when the program has exactly one simple cycle (one head, entered once) the join-only
+// sequence needs N = T-1 non-stable iterations and widening_delay = N is the exact boundary.
+bool single_simple_cycle(const GProg &p) {
+  int n = (int)p.blocks.size();
+  std::vector<std::vector<bool>> r(n, std::vector<bool>(n, false));
+  for (int u = 0; u < n; u++)
+    for (int v : p.blocks[u].succ) r[u][v] = true;
+  std::vector<std::vector<bool>> c = r;
+  for (int k = 0; k < n; k++)
+    for (int i = 0; i < n; i++)
+      for (int j = 0; j < n; j++)
+        if (c[i][k] && c[k][j]) c[i][j] = true;
+  std::vector<int> cyc;
+  for (int i = 0; i < n; i++)
+    if (c[i][i]) cyc.push_back(i);
+  if (cyc.empty()) return false;
+  for (int u : cyc) {
+    int outs = 0, ins = 0;
+    for (int v : cyc) {
+      if (!(c[u][v] && c[v][u])) return false; // two different cycles
+      if (r[u][v]) outs++;
+      if (r[v][u]) ins++;
+    }
+    if (outs != 1 || ins != 1) return false;
+  }
+  return true;
+}
+long long n_c06_ref = 0, n_c06_cmp = 0, n_c06_diverge = 0, n_c06_boundary = 0;
+void run_c06(const ProgId &id, const std::string &only_dom) {
+  GProg gp = make_prog(id);
+  if (!has_cycle(gp)) return;
+  std::string spec = id.spec();
+  vp::set_case(spec);
+  std::unique_ptr<z_cfg_t> cfg = build_cfg(gp);
+  PProg pp = decompile(*cfg);
+  if (!pp.ok) return;
+  z_cfg_ref_t ref(*cfg);
+  n_programs++;
+  bool simple = single_simple_cycle(gp);
+  for (auto &in : init_menu()) {
+    for (auto &dc : DOMS) {
+      if (!only_dom.empty() && dc.e->name != only_dom) continue;
+      apply_config(dc.cfg);
+      std::string ctx = "[" + dc.e->name + " " + dc.cfg.name + " init=" + in.name + "] " + gp.str();
+      std::string cspec = spec + "|" + dc.e->name + "|" + dc.cfg.name;
+      try {
+        wrapped_t top = top_of(*dc.e);
+        wrapped_t init = make_init(*dc.e, in);
+        crab::fixpoint_parameters pr;
+        pr.get_widening_delay() = 1000000;
+        pr.get_descending_iterations() = 0;
+        pr.get_max_thresholds() = 0;
+        long long saved_budget = g_budget;
+        g_budget = 60;
+        g_ticks = 0;
+        fwd_t R(ref, top, nullptr, pr);
+        bool diverges = false;
+        try {
+          R.run(init);
+        } catch (budget_exceeded &) {
+          diverges = true;
+        }
+        g_budget = saved_budget;
+        n_analyses++;
+        if (diverges) { n_c06_diverge++; continue; } // the join-only iteration does not stabilise: nothing is claimed
+        n_c06_ref++;
+        long long T = g_ticks;
+        std::vector<long long> delays = {T, T + 3};
+        if (simple && T >= 1) { delays.push_back(T - 1); n_c06_boundary++; }
+        for (long long d : delays) {
+          for (unsigned thr : {0u, 3u}) {
+            crab::fixpoint_parameters pd;
+            pd.get_widening_delay() = (unsigned)d;
+            pd.get_descending_iterations() = 0;
+            pd.get_max_thresholds() = thr;
+            g_ticks = 0;
+            fwd_t A(ref, top, nullptr, pd);
+            A.run(init);
+            n_analyses++;
+            n_c06_cmp++;
+            for (auto &b : pp.blocks) {
+              for (int side = 0; side < 2; side++) {
+                wrapped_t x = side == 0 ? A.get_pre(b.label) : A.get_post(b.label);
+                wrapped_t y = side == 0 ? R.get_pre(b.label) : R.get_post(b.label);
+                if (!(x <= y && y <= x)) {
+                  BoxImpl<wrapped_t> bx(x), by(y);
+                  report(dc.e->name, std::string("C06:extrapolation-within-delay") + (d == T - 1 ? ":boundary" : ""), cspec,
+                         ctx + " => join-only iteration stabilises after " + std::to_string(T) + " cycle iterations, but with widening_delay=" + std::to_string(d) +
+                             " thresholds=" + std::to_string(thr) + " " + (side == 0 ? "PRE(" : "POST(") + b.label + ") = " + bx.print() + " instead of " + by.print());
+                  goto next_delay;
+                }
+              }
+            }
+          next_delay:;
+          }
+        }
+      } catch (budget_exceeded &) {
+        report(dc.e->name, "C05:tick-budget-exceeded", cspec, ctx);
+      } catch (std::runtime_error &e) {
+        report(dc.e->name, "abort", cspec, ctx + " => analysis aborts: " + e.what());
+      }
+    }
+  }
+}
+
 // ---- C11: necessary preconditions --------------------------------------------------
 // explicit concrete graph over (block, valuation-at-entry) nodes
 struct CNode {
@@ -638,6 +746,7 @@ void enumerate(int n, int nalpha, uint64_t &caseno, const std::string &only_dom,
         id.st.push_back((int)(t % nalpha));
         t /= nalpha;
       }
+      if (PROP == "C06") { run_c06(id, only_dom); continue; }
       if (PROP == "C11") {
         run_c11(id, only_dom);
         if (second_stmt && id.st[n > 1 ? 1 : 0] != 0)
@@ -689,6 +798,7 @@ int main(int argc, char **argv) {
   else
     names = {"intervals", "ric", "split_dbm", "split_oct", "dis_intervals", "term_int", "sign_constants", "constants"};
   if (PROP == "C02" && !th && !WITH_BOOL) names = {"intervals", "split_dbm", "split_oct", "dis_intervals", "ric"};
+  if (PROP == "C06") names = {"intervals", "sign_constants", "ric", "split_dbm", "dis_intervals", "constants"};
   if (PROP == "C11") names = {"intervals", "sparse_dbm", "split_dbm", "split_oct", "bool_int", "aa_int"};
   for (auto &n : names) {
     if (!only.empty() && ("," + only + ",").find("," + n + ",") == std::string::npos) continue;
@@ -716,7 +826,9 @@ int main(int argc, char **argv) {
     for (auto &t : vp::split(f[2], '.')) id.st.push_back(atoi(t.c_str()));
     if (f.size() > 3 && !f[3].empty())
       for (auto &t : vp::split(f[3], '.')) id.st2.push_back(atoi(t.c_str()));
-    if (PROP == "C11") run_c11(id, parts.size() > 1 ? parts[1] : ""); else run_program(id, parts.size() > 1 ? parts[1] : "");
+    if (PROP == "C11") run_c11(id, parts.size() > 1 ? parts[1] : "");
+    else if (PROP == "C06") run_c06(id, parts.size() > 1 ? parts[1] : "");
+    else run_program(id, parts.size() > 1 ? parts[1] : "");
     vp::finish();
     return 0;
   }
@@ -734,6 +846,12 @@ int main(int argc, char **argv) {
   vp::stat("evaluations", n_analyses);
   vp::stat("member_checks", n_member);
   vp::stat("programs_with_cycles", n_loops);
+  if (PROP == "C06") {
+    vp::stat("join_only_references", n_c06_ref);
+    vp::stat("join_only_diverges_skipped", n_c06_diverge);
+    vp::stat("delay_runs_compared", n_c06_cmp);
+    vp::stat("exact_boundary_cases", n_c06_boundary);
+  }
   vp::stat("analyses_needing_extrapolation", n_widened);
   vp::stat("nonbottom_block_invariants", n_nonbottom_blocks);
   vp::stat("programs_with_assertions", n_assert_programs);
